@@ -254,9 +254,13 @@ class Network(Cached):
         """
         Return a copy of the network.
         """
-        return Network(adjacency=self.sp_A, directed=self.directed,
-                       node_weights=self.node_weights,
-                       silence_level=self.silence_level)
+        net = Network(adjacency=self.sp_A, directed=self.directed,
+                      node_weights=self.node_weights,
+                      silence_level=self.silence_level)
+        #  link attributes belong to the network as well
+        for name in self.graph.es.attribute_names():
+            net.set_link_attribute(name, self.link_attribute(name))
+        return net
 
     def undirected_copy(self):
         """
